@@ -19,8 +19,8 @@ rm -f "$out/apply.err"
 PYTHONPATH="$wt" /venv/bin/python "$out/demo.py" >/dev/null 2>&1; demo_changed=$?
 tests=$(PYTHONPATH="$wt" /venv/bin/python -m pytest -q -p no:cacheprovider --timeout=900 tests 2>&1 | tail -1)
 cd "$V"
-chk=$(VERIF_REPO="$wt" ./check "$prop" --tier quick 2>&1 | grep -E "^(VIOLATION|UNDECIDED|KNOWN|CHECKER|$prop:)" | sed "s#$wt#<tree>#g" | head -12)
-rc=$(VERIF_REPO="$wt" ./check "$prop" --tier quick >/dev/null 2>&1; echo $?)
+VERIF_REPO="$wt" ./check "$prop" --tier quick >"$wt.chk" 2>&1; rc=$?
+chk=$(grep -E "^(VIOLATION|UNDECIDED|KNOWN|CHECKER|$prop:)" "$wt.chk" | sed "s#$wt#<tree>#g" | head -12); rm -f "$wt.chk"
 python3 - "$src/meta.json" "$out/meta.json" "$prop" "$demo_clean" "$demo_changed" "$tests" "$rc" "$chk" <<'PY'
 import json, sys
 src, dst, prop, dc, dch, tests, rc, chk = sys.argv[1:9]
